@@ -38,7 +38,7 @@ type Kind struct {
 }
 
 var kinds = []string{"http/uri", "http/uri+noconfheaders", "http/uri+preload", "http/uripost", "http/raw", "http/jsonline", "http/jsonline+preload+shared-client", "connect/uri",
-	"http/scenario", "http/scenario+rand", "http/scenario+failing-steps+phout", "grpc/json", "grpc/json+shared-client", "grpc/scenario", "grpc/scenario+failing-steps+phout", "mock/ownership", "http/uri+phout+composite", "schedule/first-use", "http/uri+datemw"}
+	"http/scenario", "http/scenario+rand", "http/scenario+failing-steps+phout", "grpc/json", "grpc/json+shared-client", "grpc/scenario", "grpc/scenario+failing-steps+phout", "mock/ownership", "http/uri+phout+composite", "schedule/first-use", "http/uri+datemw", "http/uri+dnscache"}
 
 func skipType(t reflect.Type) bool {
 	switch t.Name() {
@@ -78,12 +78,23 @@ func poolMap(ammo, gun, result map[string]any, instances, ms int) map[string]any
 }
 
 func httpKind(res *vkit.Result, k Kind) {
-	tgt, err := vkit.NewHTTPTarget(false)
-	if err != nil {
+	// dnscache: the target is named, not numbered, and is still down when the config is decoded (the
+	// gun's pre-resolve fails, so the process-wide DNS cache of the dialers stays in use); it
+	// comes up before the shooting starts and all instances make their first connect at once
+	late := strings.Contains(k.Name, "dnscache")
+	addr := "127.0.0.1:0"
+	if late {
+		addr = fmt.Sprintf("127.0.0.1:%d", vkit.FreePort())
+	}
+	var tgt *vkit.HTTPTarget
+	var err error
+	if late {
+		tgt = &vkit.HTTPTarget{Addr: strings.Replace(addr, "127.0.0.1", "localhost", 1)}
+	} else if tgt, err = vkit.NewHTTPTargetAt(addr, false); err != nil {
 		res.Inconclusive(true, "target: %v", err)
 		return
 	}
-	defer tgt.Close()
+	defer func() { tgt.Close() }()
 	// light recording: check coherence on the fly, keep counters only
 	var reqs, incoherent atomic.Int64
 	var firstBad atomic.Value
@@ -180,6 +191,15 @@ func httpKind(res *vkit.Result, k Kind) {
 			})
 			inner(rec, w, r)
 		}
+	}
+	if late {
+		real, err := vkit.NewHTTPTargetAt(addr, false)
+		if err != nil {
+			res.Inconclusive(true, "late target: %v", err)
+			return
+		}
+		real.Respond = tgt.Respond
+		tgt = real
 	}
 	rr := runFor(ec, time.Duration(k.Ms)*time.Millisecond)
 	judgeRun(res, k, rr)
